@@ -1,7 +1,7 @@
 #![allow(unused)]
 fn mk<T>() -> T { unimplemented!() }
 
-pub fn p1165() {
+pub fn p1171() {
     let a: re::math::mat::Matrix<[[f32; 3]; 3], re::math::mat::RealToReal<3, re::render::Model, re::render::World>> = mk();
     let _ = a.transpose();
 }
